@@ -89,7 +89,7 @@ class WalkEuler:
     """k walks of a digraph as Euler multiplicity vectors (balanced, one unit from a start, one unit into
     an end, every used edge reachable from the start through used edges)."""
 
-    def __init__(self, G, k, wtype="int", starts=(), ends=(), allow_empty=False, tag="W", mult_max=4, wmax=None, caps=None):
+    def __init__(self, G, k, wtype="int", starts=(), ends=(), allow_empty=False, tag="W", mult_max=4, wmax=None, caps=None, bound_visits=False):
         self.G = G
         self.k = k
         self.tag = tag
@@ -128,6 +128,10 @@ class WalkEuler:
                 inn = z3.Sum([self.m[i][(u, v)] for u in G.predecessors(v)] + ([self.st[i][v]] if v in self.st[i] else []) + [z3.IntVal(0)])
                 out = z3.Sum([self.m[i][(v, x)] for x in G.successors(v)] + ([self.en[i][v]] if v in self.en[i] else []) + [z3.IntVal(0)])
                 cons.append(inn == out)
+                if bound_visits:
+                    # node-weighted use: a node is visited at most mult_max + 1 times (stated spec bound; `explained`
+                    # on nodes case-splits up to it, so the count must not exceed it)
+                    cons.append(inn <= mult_max + 1)
                 # connectivity: a node with used incoming edges and no start token has a used in-edge from a lower-ranked node
                 cons += [self.rank[i][v] >= 0, self.rank[i][v] <= n]
                 preds = list(G.predecessors(v))
